@@ -36,6 +36,8 @@ func runC01(p *Prog, r *Report) {
 	r.Explain = append(r.Explain, "R-COVIDX: every array access whose index is a Coverage index (first result of Coverage.Index, followed through conversions, phis and arguments of module functions, one obligation per call site when the array is a parameter) is bounded by a test in its function (P-LIN) or by a sanitizer pair: a function called when the font is loaded compares len(<the indexed field>) with <the coverage field>.Len(), matched by the identity of the two struct fields; and the loader dispatches the sanitizers on each subtable as it is AFTER extensions have been resolved (R-COVIDX/resolved).")
 	ruleCovIdx(p, r)
 	ruleExtSan(p, r)
+	nilExplain(r)
+	ruleNil(p, r, "R-NIL", p.pkgPath("font/opentype/tables"), []string{p.pkgPath("harfbuzz")}, 20, 30)
 	r.Assumptions = append(r.Assumptions,
 		"termination of loops (as opposed to recursion) is not decided",
 		"cluster monotonicity, rune/glyph count sums and output size proportional to input are NOT decided (runtime arithmetic)",
@@ -384,8 +386,19 @@ func resyncShape(p *Prog, f *ssa.Function, fInfo, fPos *types.Var, seen map[*ssa
 	return nil
 }
 
+func controlsNil(cp *Prog, r *Report) {
+	expectControl(r, "R-NIL", func(cr *Report) { ruleNil(cp, cr, "R-NIL", cp.pkgPath("nl"), []string{cp.pkgPath("nl")}, 8, 4) },
+		"nl.useBad/Index on nl.T.C", "nl.useElemBad/Index on nl.T.E", "nl.helper/Index on nl.T.D", "(nl.W).copyBad/Index on nl.W.c", "nl.closureBad$1/Index on nl.T.C",
+		"nl.rawLook/parses nl.T")
+}
+
+func nilExplain(r *Report) {
+	r.Explain = append(r.Explain, "R-NIL: the interface-typed fields (and elements of slices of interfaces) that the table parsers leave nil for a NULL offset are found in the program (every parser store to the field is control-dependent on an `offset != 0` test) and closed under field-to-field copies; every invoke-mode call on an interface of the tables package whose receiver may be a load of such a field — followed through parameters to all callers, captured variables, call results and local copies — is dominated by a nil test of that field (directly, through a boolean field that only ever caches such a test, or in every caller), or the field is replaced by an empty table in the fill functions, in which case every parser result implementing the lookup interface must be obtained in a function whose returns all go through the fill entry (R-NIL/fill).")
+}
+
 func controlsC01(cp *Prog, r *Report) {
 	controlsRec(cp, r)
+	controlsNil(cp, r)
 	expectControl(r, "R-SYNC", func(cr *Report) {
 		ruleSync(cp, cr, syncCfg{pkg: "syncbuf", typ: "Buf", info: "Info", pos: "Pos", haveOutput: "have",
 			clearOutput: "clearOutput", swap: "swapGood", resync: []string{"swapGood", "resyncBad"}, floorWriters: 3, floorBrackets: 2})
